@@ -23,6 +23,12 @@ def datasets(rng, shape, nds, fail, nan=False, plain_dims=False):
         name = ['e', 't', 'mu', 'x'][i]
         if rng.random() < 0.5:
             bins[name] = np.arange(dim + 1) * 1.5 + 10 * i
+            if dim >= 2 and rng.random() < 0.25:
+                # first / last bin much wider than its neighbour (as the
+                # energy grids of real listings: 1e-11 ... 20 MeV)
+                bins[name][0] = -1e6
+                if rng.random() < 0.5:
+                    bins[name][-1] = 1e7
         else:
             bins[name] = np.arange(dim) * 2.0 + 0.25 + 10 * i
     base = (np.arange(size, dtype=float) * 1.25 + 1.5).reshape(shape)
@@ -30,6 +36,10 @@ def datasets(rng, shape, nds, fail, nan=False, plain_dims=False):
     if not shape:
         base, err = np.float64(base), np.float64(err)
     names = rng.sample(NAMES, nds + 1)
+    fortran = len(shape) >= 2 and rng.random() < 0.15
+    if fortran:
+        # the same numbers in another memory layout
+        base, err = np.asfortranarray(base), np.asfortranarray(err)
     ref = Dataset(base, err, bins=bins, name=names[0], what='flux')
     dsets, masks = [], []
     for k in range(nds):
@@ -54,6 +64,8 @@ def datasets(rng, shape, nds, fail, nan=False, plain_dims=False):
             mask[pos] = True
         val = val.reshape(shape)
         derr = np.full(shape, 0.25 + 0.125 * k)
+        if fortran:
+            val, derr = np.asfortranarray(val), np.asfortranarray(derr)
         if not shape:
             val, derr = np.float64(val), np.float64(derr)
         dsets.append(Dataset(val, derr, bins=bins, name=names[k + 1],
